@@ -75,6 +75,55 @@ type Msg struct {
 	// Grow: history — the message is rendered while it is still smaller and completed afterwards: 1 = rendered once
 	// when only the body parts are there (embeds and attachments follow), 2 = additionally once more after the embeds
 	Grow int `json:"grow,omitempty"`
+	// MW: the message carries a Middleware (WithMiddleware) that is applied on every rendering: 1 = sets a generic
+	// header only; 2 = appends a footer to the first body part (idempotent); 3 = adds an attachment unless it is
+	// already there. Effective() is the program the rendering must correspond to.
+	MW int `json:"mw,omitempty"`
+}
+
+// MWFooter is the text middleware 2 appends; MWFile is the attachment middleware 3 adds.
+const MWFooter = "-- \r\nfooter appended by a middleware\r\n"
+
+var MWFile = File{Name: "added-by-middleware.txt", Content: []byte("attachment added by a middleware\r\n")}
+
+type middleware struct{ kind int }
+
+func (w middleware) Type() mail.MiddlewareType { return "verif-middleware" }
+
+func (w middleware) Handle(m *mail.Msg) *mail.Msg {
+	switch w.kind {
+	case 1:
+		m.SetGenHeader("X-Middleware", "seen")
+	case 2:
+		if ps := m.GetParts(); len(ps) > 0 {
+			if c, err := ps[0].GetContent(); err == nil && !strings.HasSuffix(string(c), MWFooter) {
+				ps[0].SetContent(string(c) + MWFooter)
+			}
+		}
+	case 3:
+		for _, f := range m.GetAttachments() {
+			if f.Name == MWFile.Name {
+				return m
+			}
+		}
+		_ = m.AttachReader(MWFile.Name, strings.NewReader(string(MWFile.Content)))
+	}
+	return m
+}
+
+// Effective returns the program after the middleware has been applied.
+func (s Msg) Effective() Msg {
+	switch s.MW {
+	case 2:
+		if len(s.Parts) > 0 {
+			ps := append([]Part{}, s.Parts...)
+			ps[0].Content = append(append([]byte{}, ps[0].Content...), MWFooter...)
+			s.Parts = ps
+		}
+	case 3:
+		s.Attach = append(append([]File{}, s.Attach...), MWFile)
+	}
+	return s
 }
 
 // Hooks lets a check wrap every content producer.
@@ -128,6 +177,9 @@ func Build(s Msg, h *Hooks) (*mail.Msg, error) {
 	}
 	if s.NoUA {
 		opts = append(opts, mail.WithNoDefaultUserAgent())
+	}
+	if s.MW != 0 {
+		opts = append(opts, mail.WithMiddleware(middleware{s.MW}))
 	}
 	m := mail.NewMsg(opts...)
 	var firstErr error
@@ -412,6 +464,9 @@ func (s Msg) Describe() string {
 		if s.SignAPI > 0 {
 			fmt.Fprintf(&b, " SignWithTLSCertificate(chain=%d)", s.SignAPI)
 		}
+	}
+	if s.MW != 0 {
+		fmt.Fprintf(&b, " middleware=%d", s.MW)
 	}
 	if s.Recycle != 0 {
 		fmt.Fprintf(&b, " recycled-msg=%d", s.Recycle)
